@@ -296,3 +296,110 @@ def run_check(prop, tier, seed, fn, replay=None, keep=False, race=False):
     finally:
         ctx.cleanup()
     return rc
+
+
+# ---------------------------------------------------------------------------
+# helpers shared by the relational checks (cases -> driver -> judged events)
+# ---------------------------------------------------------------------------
+import concurrent.futures as _cf
+
+
+def export_cases(run, prefix="CASE"):
+    return [json.loads(s) for s in run.printed(prefix)]
+
+
+def drive_cases(ctx, cmd, cases, nchunks=8, extra=None, tag="cases"):
+    """Split cases over nchunks driver processes. Returns ([trace paths], [summaries])."""
+    extra = extra or []
+    chunks = [cases[i::nchunks] for i in range(nchunks)]
+    jobs = []
+    for i, ch in enumerate(chunks):
+        if not ch:
+            continue
+        cf = ctx.path("%s_%s_%d.ndjson" % (cmd, tag, i))
+        write_ndjson(cf, ch)
+        jobs.append((cf, ctx.path("%s_%s_trace_%d.ndjson" % (cmd, tag, i)), ctx.path("%s_%s_sum_%d.json" % (cmd, tag, i)), i))
+
+    def one(j):
+        cf, tr, sm, i = j
+        ctx.drive([cmd, "-cases", cf, "-out", tr, "-summary", sm, "-seed", ctx.seed * 100 + i] + extra)
+        return tr, (json.load(open(sm)) if os.path.exists(sm) else {})
+    with _cf.ThreadPoolExecutor(max_workers=8) as ex:
+        res = list(ex.map(one, jobs))
+    return [r[0] for r in res], [r[1] for r in res]
+
+
+def drive_gen(ctx, cmd, n, extra=None, tag="gen"):
+    """n generator-mode driver processes (seeded random cases beyond TLC's bounds)."""
+    extra = extra or []
+
+    def one(i):
+        tr = ctx.path("%s_%s_trace_%d.ndjson" % (cmd, tag, i))
+        sm = ctx.path("%s_%s_sum_%d.json" % (cmd, tag, i))
+        ctx.drive([cmd, "-out", tr, "-summary", sm, "-seed", ctx.seed * 1000 + 17 * i + 1] + extra)
+        return tr, (json.load(open(sm)) if os.path.exists(sm) else {})
+    with _cf.ThreadPoolExecutor(max_workers=8) as ex:
+        res = list(ex.map(one, range(n)))
+    return [r[0] for r in res], [r[1] for r in res]
+
+
+def judge(ctx, module, traces, cfg=None, label=None, timeout=1800, heap=None, extra_env=None):
+    """Stage C for relational specs: returns (n_events, [(trace_path, index0, event)])."""
+    cfg = cfg or module
+
+    def one(tr):
+        if os.path.getsize(tr) == 0:
+            return 0, []
+        n, bad, _ = ctx.tlc_trace(module, cfg, tr, label="%s %s" % (label or module, os.path.basename(tr)[-24:]),
+                                  timeout=timeout, heap=heap, extra_env=extra_env)
+        out = []
+        if bad:
+            evs = read_ndjson(tr)
+            out = [(tr, b - 1, evs[b - 1]) for b in bad]
+        return n, out
+    with _cf.ThreadPoolExecutor(max_workers=6) as ex:
+        res = list(ex.map(one, traces))
+    return sum(r[0] for r in res), [b for r in res for b in r[1]]
+
+
+def report_bad(ctx, bad, sig_fn, desc_fn, replay_fn, confirm_fn, max_report=6):
+    """Group rejected events by signature, confirm one representative per group from its replay object,
+    then record it as violation or known finding."""
+    groups = {}
+    for tr, i, ev in bad:
+        sig = sig_fn(ev)
+        groups.setdefault(json.dumps(sig, sort_keys=True), []).append(ev)
+    reported = 0
+    for k, evs in groups.items():
+        sig = json.loads(k)
+        ev = evs[0]
+        rep = replay_fn(ev)
+        if match_known(ctx.prop, sig) is None:
+            if reported >= max_report:
+                continue
+            if not confirm_fn(rep):
+                raise MachineryError("a rejected event did not reproduce from its replay object: %s" % json.dumps(rep)[:600])
+            reported += 1
+        ctx.add_violation(desc_fn(ev) + (" (+%d more events with this signature)" % (len(evs) - 1) if len(evs) > 1 else ""),
+                          sig, rep)
+    return groups
+
+
+def confirm_by_cases(ctx, cmd, module, extra=None, cfg=None, extra_env=None):
+    """Standard confirmation: re-run the driver on the single case of the replay object and re-judge."""
+    def fn(rep):
+        k = len(ctx.tlc_runs)
+        cf = ctx.path("confirm_%d.ndjson" % k)
+        write_ndjson(cf, rep["cases"])
+        tr = cf + ".trace"
+        ctx.drive([cmd, "-cases", cf, "-out", tr, "-seed", ctx.seed] + (rep.get("extra") or extra or []))
+        n, bad, _ = ctx.tlc_trace(module, cfg or module, tr, label="confirm", extra_env=extra_env)
+        return bool(bad)
+    return fn
+
+
+def replay_main(ctx, replay, cmd, module, cfg=None, extra_env=None):
+    rep = json.load(open(replay))
+    if confirm_by_cases(ctx, cmd, module, cfg=cfg, extra_env=extra_env)(rep):
+        ctx.violations.append({"what": "replayed: still not explained by the specification: " + rep.get("what", ""),
+                               "sig": rep.get("sig", {}), "replay": replay})
